@@ -89,6 +89,7 @@ impl Family {
             Family::Types { arrays: false, .. } => "nested_structs",
             Family::Types { arrays: true, .. } => "nested_struct_arrays",
             Family::Flat { .. } => "flat_control",
+            Family::Decls { kind: 2, .. } => "const_array_doubling",
             Family::Decls { kind: 0, .. } => "override_chain",
             Family::Decls { .. } => "const_chain",
             Family::Wide { .. } => "wide",
@@ -372,6 +373,21 @@ pub fn source(family: &Family) -> String {
                 );
             }
             let _ = writeln!(out, "@compute @workgroup_size(1)\nfn cs_main() {{\n    let p = &tg0;\n}}");
+        }
+        Family::Decls { depth, kind: 2, .. } => {
+            // doubling chain of constant arrays: one Compose per level whose components are the
+            // same handle (a DAG in the constant-expression arena); 8 * 2^depth bytes (2 GiB at 28)
+            let depth = (*depth).min(28);
+            let _ = writeln!(out, "const TK0 = array(1.0, 2.0);");
+            for level in 1..=depth {
+                let _ = writeln!(out, "const TK{level} = array(TK{}, TK{});", level - 1, level - 1);
+            }
+            out.push_str(GLOBALS);
+            let _ = writeln!(
+                out,
+                "@compute @workgroup_size(1)\nfn cs_main() {{\n    acc_buf[0] = TK{}[0][0] + params.x;\n}}",
+                depth.min(1)
+            );
         }
         Family::Decls { depth, fan, kind } => {
             let kw = if *kind == 0 { "override" } else { "const" };
@@ -678,6 +694,9 @@ pub fn systematic_families() -> Vec<Family> {
     }
     v.push(Family::Types { depth: 6, members: 8, globals: 16, arrays: false });
     v.push(Family::Types { depth: 7, members: 6, globals: 2, arrays: true });
+    for depth in [2, 8, 16, 22, 26, 28] {
+        v.push(Family::Decls { depth, fan: 2, kind: 2 });
+    }
     for kind in 0..2u8 {
         for (depth, fan) in [(4, 2), (16, 2), (32, 2), (48, 3), (64, 2), (64, 1)] {
             v.push(Family::Decls { depth, fan, kind });
@@ -754,7 +773,7 @@ pub fn random_family(rng: &mut Rng) -> Family {
         9 if rng.bool() => Family::Decls {
             depth: rng.range(1, 64) as u32,
             fan: rng.range(1, 3) as u32,
-            kind: rng.below(2) as u8,
+            kind: rng.below(3) as u8,
         },
         9 if rng.bool() => Family::Wide {
             entries: rng.range(1, 90) as u32,
